@@ -348,7 +348,7 @@ class Run:
         todo = list(self.obs)
         self.solve_wall = 0.0
         rounds = 0
-        while todo and rounds < 3:
+        while todo and rounds < 4:
             rounds += 1
             queries, owners = [], []
             for ob in todo:
@@ -381,13 +381,23 @@ class Run:
                         if fb is None:
                             ob.verdict, ob.detail = "inconclusive", "abstract query %s and no precise fallback" % out.status
                         else:
-                            ob.verdict, ob.detail = "refined", "abstract query was %s; decided by %s" % (out.status, fb.name)
-                            fb.name = ob.name + "#precise"
+                            ob.verdict, ob.detail = "refined", "abstract query was %s; decided by the next encoding" % out.status
+                            fb.name = ob.name.split("#")[0] + "#" + (fb.tag if getattr(fb, "tag", None) else "precise")
                             idx = self.obs.index(ob)
                             self.obs.insert(idx + 1, fb)
                             nxt.append(fb)
                         continue
                     self.judge(ob, out)
+                    if ob.verdict == "inconclusive" and ob.fallback is not None and ob.kind in ("verify", "hunt"):
+                        # an exact encoding that gave no verdict (timeout / model that did not reproduce) may have a
+                        # second exact encoding to try (INT <-> BV)
+                        fb = ob.fallback() if callable(ob.fallback) else ob.fallback
+                        if fb is not None:
+                            ob.verdict, ob.detail = "refined", "no verdict (%s); decided by the next encoding" % ob.detail[:120]
+                            fb.name = ob.name.split("#")[0] + "#" + (fb.tag if getattr(fb, "tag", None) else "precise2")
+                            idx = self.obs.index(ob)
+                            self.obs.insert(idx + 1, fb)
+                            nxt.append(fb)
                 else:
                     self.judge_known(ob, role[1], out)
             todo = nxt
